@@ -837,6 +837,12 @@ class SymArray(np.ndarray):
             return
         if isinstance(value, SymArray):
             value = value.view(np.ndarray)
+        if self.dtype == object and isinstance(value, np.ndarray) and value.size == 1 and value.ndim > 0:
+            # a numeric array element receives the single entry of a size-1 array (numpy converts it to a scalar);
+            # an object array would keep the array itself as the element
+            k = key if isinstance(key, tuple) else (key,)
+            if len(k) == self.ndim and all(isinstance(i, (int, np.integer)) for i in k):
+                value = value.flat[0]
         if self.dtype != object and is_sym(value):
             raise HarnessError(
                 f"symbolic value stored into a {self.dtype} array (an array constructor is missing from the numpy proxy)"
